@@ -290,3 +290,20 @@ pub fn compare_batch(ctx: &mut Ctx, rep: &mut Report, batch: &mut Vec<(String, S
     }
     batch.clear();
 }
+
+/// Leave the op line that is about to run in the file named by BP7H_LASTLINE (one open file, rewritten
+/// in place): when the process dies inside the implementation (abort, allocation failure) the check
+/// script reports that line as the failing input.
+pub fn note_line(line: &str) {
+    use std::io::{Seek, SeekFrom, Write};
+    use std::sync::{Mutex, OnceLock};
+    static F: OnceLock<Option<Mutex<std::fs::File>>> = OnceLock::new();
+    let f = F.get_or_init(|| std::env::var("BP7H_LASTLINE").ok().and_then(|p| std::fs::OpenOptions::new().create(true).write(true).truncate(true).open(p).ok()).map(Mutex::new));
+    if let Some(m) = f {
+        if let Ok(mut g) = m.lock() {
+            let _ = g.seek(SeekFrom::Start(0));
+            let _ = g.write_all(line.as_bytes());
+            let _ = g.set_len(line.len() as u64);
+        }
+    }
+}
